@@ -161,12 +161,23 @@ func rewrite(p *an.Prog, fresh []*ssa.Function, round int) (map[string][]byte, [
 	}
 	// method values of fresh methods become literals that call the method (a round of their own: the call inside the
 	// literal is inlined by the next one)
+	// `for fresh(…) { … }` becomes `for { if !(fresh(…)) { break }; … }` (a round of its own as well)
 	for _, pk := range p.Pkgs {
 		if pk.TypesInfo == nil {
 			continue
 		}
 		for _, file := range pk.Syntax {
-			r.wrapMethodValues(pk, file)
+			r.unfoldLoopConds(pk, file)
+		}
+	}
+	if len(r.did) == 0 {
+		for _, pk := range p.Pkgs {
+			if pk.TypesInfo == nil {
+				continue
+			}
+			for _, file := range pk.Syntax {
+				r.wrapMethodValues(pk, file)
+			}
 		}
 	}
 	if len(r.did) == 0 {
@@ -411,6 +422,39 @@ func (r *rw) wrapMethodValues(pk *packages.Package, file *ast.File) {
 		fe.edits = append(fe.edits, edit{r.off(se.Pos()), r.off(se.End()), text})
 		r.did = append(r.did, fmt.Sprintf("round %d: method value %s at %s wrapped in a literal", r.round, fn.FullName(), r.p.Pos(se.Pos())))
 	}
+}
+
+// unfoldLoopConds: a loop whose only clause is a condition that calls a fresh function is rewritten so that the
+// call stands in a statement of its own (`continue` still re-evaluates it: it is the first statement of the body).
+func (r *rw) unfoldLoopConds(pk *packages.Package, file *ast.File) {
+	info := pk.TypesInfo
+	ast.Inspect(file, func(n ast.Node) bool {
+		fs, ok := n.(*ast.ForStmt)
+		if !ok || fs.Init != nil || fs.Post != nil || fs.Cond == nil {
+			return true
+		}
+		var hit *types.Func
+		ast.Inspect(fs.Cond, func(m ast.Node) bool {
+			if _, isLit := m.(*ast.FuncLit); isLit {
+				return false
+			}
+			if c, ok := m.(*ast.CallExpr); ok && hit == nil {
+				if fn := calleeOf(info, c); fn != nil {
+					if _, isFresh := r.fresh[fn]; isFresh && r.pkgOf[fn] == pk {
+						hit = fn
+					}
+				}
+			}
+			return true
+		})
+		if hit == nil {
+			return true
+		}
+		fe := r.file(r.fname(file.Pos()))
+		fe.edits = append(fe.edits, edit{r.off(fs.Cond.Pos()), r.off(fs.Body.Lbrace) + 1, "{ if !(" + r.text(fs.Cond) + ") { break }\n"})
+		r.did = append(r.did, fmt.Sprintf("round %d: loop condition calling %s at %s moved into the body", r.round, hit.FullName(), r.p.Pos(fs.Cond.Pos())))
+		return true
+	})
 }
 
 func enclosingFunc(file *ast.File, pos token.Pos) ast.Node {
